@@ -996,6 +996,105 @@ Definition sk_register : list ev :=
    IfE;
    LoopE].
 
+Definition sk_fs_add : list ev :=
+  [IfB;
+   Call "restrict";
+   Else;
+   IfE;
+   Call "register"].
+
+Definition sk_resolve_from_tag : list ev :=
+  [Rd "search_tags";
+   LoopB;
+   Call "resolve_from_id";
+   Call "append";
+   LoopE;
+   Ret].
+
+Definition sk_resolve_from_id : list ev :=
+  [Rd "simple";
+   IfB;
+   Rd "simple";
+   Ret;
+   Else;
+   IfE;
+   Rd "sequence";
+   Ret].
+
+Definition sk_source_id_to_path : list ev :=
+  [TryB;
+   Rd "source_ids";
+   Ret;
+   Handler "KeyError";
+   Rd "source_ids";
+   TryE;
+   Ret].
+
+Definition sk_collection_init : list ev :=
+  [Call "reset"].
+
+Definition sk_collection_reset : list ev :=
+  [Wr "by_path"].
+
+Definition sk_tm_init : list ev :=
+  [Call "event_new";
+   Call "event_clear";
+   Call "thread_new";
+   Wr "running"].
+
+Definition sk_tm_start : list ev :=
+  [Call "thread_start";
+   Wr "running"].
+
+Definition sk_tm_stop : list ev :=
+  [Rd "running";
+   IfB;
+   Call "event_set";
+   Call "thread_join";
+   Wr "running";
+   Else;
+   IfE].
+
+Definition sk_kill_workers : list ev :=
+  [Call "active_children";
+   LoopB;
+   IfB;
+   IfB;
+   Call "remember_worker";
+   Else;
+   IfE;
+   Else;
+   IfE;
+   LoopE;
+   Call "getpid";
+   Call "ps_children";
+   LoopB;
+   IfB;
+   Call "getpid";
+   Continue;
+   Else;
+   IfE;
+   TryB;
+   Call "kill";
+   Handler "ProcessLookupError";
+   TryE;
+   LoopE].
+
+Definition sk_cm_init : list ev :=
+  [Wr "search_catalog";
+   Wr "global_constraints";
+   Wr "global_restrictions"].
+
+Definition sk_fs_stats : list ev :=
+  [Rd "stats";
+   Ret].
+
+Definition sk_rse_init : list ev :=
+  [Wr "msg"].
+
+Definition sk_fse_init : list ev :=
+  [Wr "msg"].
+
 Definition sk_searchdefbase_init : list ev :=
   [Rd "arg_constraints";
    Wr "constraints_attr";
